@@ -581,4 +581,21 @@ def sortedInts : List Int → List Int
   | a :: l => insertInt a (sortedInts l)
 -- --- T11 end
 
+-- --- T12: itertools.groupby (harness/translate_t12.py)
+/-- `itertools.groupby(xs, key)` with every group taken as a list: maximal runs of consecutive items with equal keys, each with
+    the key of its first item (key equality is `==`: an equivalence for the key types used, `Bool` / `Int`) -/
+def groupby {α κ : Type} [BEq κ] (key : α → κ) : List α → List (κ × List α)
+  | [] => []
+  | x :: xs =>
+    match groupby key xs with
+    | [] => [(key x, [x])]
+    | (k, g) :: rest => if key x == k then (k, x :: g) :: rest else (key x, [x]) :: (k, g) :: rest
+
+/-- `sorted(xs)` of a list of ints (insertion sort: structural recursion, so that `decide` can run it; `insertInt` is the one of
+    the T11 block above) -/
+def sortedInt : List Int → List Int
+  | [] => []
+  | b :: l => insertInt b (sortedInt l)
+-- --- end T12
+
 end OQ.Py
